@@ -361,3 +361,82 @@ Proof.
   split; [vm_compute; reflexivity|]. split; [vm_compute; reflexivity|].
   exists [0; 1]. split; [repeat constructor|]. vm_compute. discriminate.
 Qed.
+
+(** ---- non-vacuity of the hypotheses (audit) ----
+    Already witnessed above: [C06_example_hyps] ((1), (4): wf, flush of an initialised store, mid of two operations),
+    [C06_example_prefix_hyps] ((5), (6)), [C06_example_layouts] ((7b), (7c): iwf, Forall2 same_iop on different layouts).
+    The remaining ones: *)
+
+(** (2), (3), close: a history ending in a flush-like operation, the store initialised *)
+Example C06_flush_loads_nonvacuous :
+  0 < 2 /\ wf 2 ((ex_pre ++ Flush :: ex_mid) ++ [Pickle]) /\ is_flush Pickle = true /\ (Pickle = Reopen \/ Pickle = Pickle)
+  /\ (let '(m, f, _) := start current 2 (fun _ => 0) ((ex_pre ++ Flush :: ex_mid) ++ [Pickle]) in
+      (m_init m, f_buf f, loads (f_disk f))) = (true, [], Some [[7];[8];[3];[4];[5];[6]]%N).
+Proof. split; [repeat constructor|]. split; [repeat constructor|]. split; [reflexivity|]. split; [now right|]. vm_compute; reflexivity. Qed.
+
+(** the inner hypotheses of close_loads: a set of allowed contents [H] that is Safe for the file before the close (two pending
+    writes in the buffer) and contains the final content *)
+Example C06_close_loads_nonvacuous :
+  let '(m, f, i) := start current 2 (fun _ => 0) (ex_pre ++ [Flush; Set_ 2 true [[5%N];[6%N]]]) in
+  m_init m = true /\ length (f_buf f) = 1
+  /\ Safe [[[1];[2];[3];[4]]; [[1];[2];[3];[4];[5];[6]]]%N f
+  /\ In (flat (spec (ex_pre ++ [Flush; Set_ 2 true [[5%N];[6%N]]]))) [[[1];[2];[3];[4]]; [[1];[2];[3];[4];[5];[6]]]%N.
+Proof.
+  vm_compute. split; [reflexivity|]. split; [reflexivity|]. split; [|auto].
+  intros j Hj. unfold good.
+  destruct j as [|[|j]]; [| |exfalso; repeat apply le_S_n in Hj; inversion Hj]; vm_compute; eexists; (split; [reflexivity|]); auto.
+Qed.
+
+(** (4b) a read in the middle of a history with pending writes, on a store without a memmap; a query *)
+Example C06_queries_preserve_nonvacuous :
+  wf 2 (ex_pre ++ Flush :: ex_mid) /\ is_query (Read 1) = true /\ is_query Query = true
+  /\ (let '(m, f, i) := start current 2 (fun _ => 0) (ex_pre ++ [Flush; Set_ 2 true [[5%N];[6%N]]]) in
+      let h := hstep current 2 (fun _ => 0) i m f (Read 1) in
+      (m_init m, m_mmap m, length (f_buf f), m_mmap (r_mem h), f_buf (r_file h), r_err h))
+     = (true, false, 1, true, [], false).
+Proof. split; [repeat constructor|]. split; [reflexivity|]. split; [reflexivity|]. vm_compute. reflexivity. Qed.
+
+(** (5b) a prefix state hiding two batches; an append-looking write, an overwrite and a delete-last *)
+Example C06_prefix_visible_nonvacuous :
+  snd (spec ex_three, 1) <= length (fst (spec ex_three, 1)) /\ is_open (Set_ 1 true [[7%N];[8%N]]) = false /\ Set_ 1 true [[7%N];[8%N]] <> Reopen
+  /\ visible (pspec_step (spec ex_three, 1) (Set_ 1 true [[7%N];[8%N]])) = [[[1];[2]]; [[7];[8]]]%N
+  /\ spec_step (visible (spec ex_three, 1)) (Set_ 1 true [[7%N];[8%N]]) = [[[1];[2]]; [[7];[8]]]%N
+  /\ visible (pspec_step (spec ex_three, 2) (Del 1)) = spec_step (visible (spec ex_three, 2)) (Del 1).
+Proof. vm_compute. repeat split; try discriminate. repeat constructor. Qed.
+
+Example C06_pspec_no_open_nonvacuous :
+  has_open (ex_mid ++ [Del 2; Reopen]) = false
+  /\ fold_left pspec_step (ex_mid ++ [Del 2; Reopen]) (spec ex_pre, length (spec ex_pre)) = ([[[7];[8]]; [[3];[4]]]%N, 2).
+Proof. vm_compute. repeat split. Qed.
+
+(** the crash clause on the observations of [append A; flush; append B; overwrite 0 with X] (the trace is the model's), killed
+    after the overwrite's flush: operation in progress t = 3 (not complete), last completed flush f = 1, the file holds [A B] *)
+Definition aud_crash_ops : list hop := [Set_ 0 true [[1%N]]; Flush; Set_ 1 true [[2%N]]; Set_ 0 true [[3%N]]].
+Definition aud_crash_trace : list (list lop) :=
+  [[LSeek; LWritePrefix; LSeek; LWriteHeader 0; LSeek; LWriteData 0 [[1%N]]]; [LSeek; LWriteHeader 1; LFlush];
+   [LSeek; LWriteData 1 [[2%N]]]; [LSeek; LWriteHeader 2; LFlush; LSeekEnd; LMemWrite 0 [[3%N]]]].
+
+Example C06_ok_sound_nonvacuous :
+  ok_crash1 aud_crash_ops [false; false; false; false] (spec_errs [] aud_crash_ops [false; false; false; false]) (tag 0 aud_crash_trace)
+            (15, Some [[1];[2]]%N) = true
+  /\ last_exec (15 - 1) (tag 0 aud_crash_trace) None = Some (3, false)
+  /\ last_flush aud_crash_ops [false; false; false; false] 3 false 0 false None = Some 1
+  /\ loads (crash_disk current 1 (fun _ => 0) (firstn 3 aud_crash_ops) (Set_ 0 true [[3%N]]) 3) = Some [[1];[2]]%N
+  /\ ok_crash1 aud_crash_ops [false; false; false; false] (spec_errs [] aud_crash_ops [false; false; false; false]) (tag 0 aud_crash_trace)
+            (15, Some [[3]]%N) = false.
+Proof. vm_compute. repeat split. Qed.
+
+(** (7a), logical_cell: a negatively strided 2 x 3 array, an open initialised array *)
+Example C06_append_writes_logical_order_nonvacuous :
+  nd_shape ex_neg = 2 :: [3] /\ m_closed (fst (fst (start current 2 (fun _ => 0) [Set_ 0 true (nd_rows ex_F)]))) = false
+  /\ 1 < 2 /\ valid [2] [3]
+  /\ nth_error (concat (nd_rows ex_neg)) (lin (nd_shape ex_neg) [1; 2]) = Some (code (elem ex_neg [1; 2])).
+Proof. vm_compute. repeat split; repeat constructor. Qed.
+
+(** (7d) the observations right after [store[1] = ex_neg] on a store holding one batch, then a flush *)
+Example C06_ok_reports_logical_nonvacuous :
+  ok_reports [nd_rows ex_C] (map lower (IArr 1 true ex_neg :: [IOp Flush]))
+    ({| o_err := false; o_len := 2; o_batches := Some [nd_rows ex_F; nd_rows ex_F]; o_load := None |}
+     :: [{| o_err := false; o_len := 2; o_batches := Some [nd_rows ex_F; nd_rows ex_F]; o_load := Some (Some (nd_rows ex_F ++ nd_rows ex_F)) |}]) = true
+  /\ 1 <= length [nd_rows ex_C] /\ nd_shape ex_neg = 2 :: [3].
+Proof. vm_compute. repeat split; repeat constructor. Qed.
